@@ -206,3 +206,79 @@ Section HalfFull.
     destruct (Nat.ltb_spec 0 a) as [H0|H0]; [rewrite (end_force_eq (a - 1) (6 + r)) by lia|]; reflexivity.
   Qed.
 End HalfFull.
+
+(* C07, structure: mirror image of a beam about the plane y = 0 with the node order reversed.  sg r is the sign with which
+   DOF r of a node (ux, uy, uz, rx, ry, rz) changes under the reflection; sw exchanges the two nodes of an element. *)
+Definition sg (r : nat) : R := if Nat.even r then 1 else -1.
+Definition sw (p : nat) : nat := if (p <? 6)%nat then (p + 6)%nat else (p - 6)%nat.
+
+Lemma rsum12_swap (f : nat -> R) : rsum 12 f = rsum 12 (fun t => f (sw t)).
+Proof.
+  change 12%nat with (6 + 6)%nat. rewrite !rsum_split.
+  rewrite (rsum_ext 6 (fun t => f (sw t)) (fun t => f (6 + t)%nat)).
+  2:{ intros t Ht. unfold sw. replace (t <? 6)%nat with true by (symmetry; apply Nat.ltb_lt; lia). f_equal; lia. }
+  rewrite (rsum_ext 6 (fun i => f (sw (6 + i))) f).
+  2:{ intros t Ht. unfold sw. replace (6 + t <? 6)%nat with false by (symmetry; apply Nat.ltb_ge; lia). f_equal; lia. }
+  apply Rplus_comm.
+Qed.
+
+Lemma sg_sq r : sg r * sg r = 1.
+Proof. unfold sg. destruct (Nat.even r); lra. Qed.
+Lemma sg_add6 r : sg (6 + r) = sg r.
+Proof. unfold sg. replace (6 + r)%nat with (S (S (S (S (S (S r)))))) by lia. rewrite !Nat.even_succ_succ. reflexivity. Qed.
+Lemma sg_mod6 t : sg (t mod 6) = sg t.
+Proof.
+  unfold sg. rewrite (Nat.div_mod t 6) at 2 by lia.
+  rewrite Nat.even_add, Nat.even_mul. cbn [Nat.even orb]. destruct (Nat.even (t mod 6)); reflexivity.
+Qed.
+
+Section MirrorFEM.
+  Variables (ne : nat) (k k' : nat -> nat -> nat -> R) (u : nat -> R).
+  (* element-level covariance (the hypothesis): the matrix of the mirrored element ne-1-e is that of element e with its
+     two nodes exchanged and the reflected DOFs' signs applied on both sides *)
+  Hypothesis Hk : forall e p q, (e < ne)%nat -> (p < 12)%nat -> (q < 12)%nat ->
+    k' (ne - 1 - e)%nat p q = sg p * sg q * k e (sw p) (sw q).
+  (* the mirrored displacement field *)
+  Definition um (q : nat) : R := sg (q mod 6) * u (6 * (ne - q / 6) + q mod 6)%nat.
+
+  Lemma end_force_mirror e p : (e < ne)%nat -> (p < 12)%nat ->
+    end_force k' um (ne - 1 - e) p = sg p * end_force k u e (sw p).
+  Proof.
+    intros He Hp. unfold end_force.
+    rewrite (rsum12_swap (fun t => k e (sw p) t * u (6 * e + t)%nat)).
+    rewrite <- rsum_scal. apply rsum_ext; intros t Ht.
+    rewrite Hk by assumption. unfold um.
+    assert (Hd : ((6 * (ne - 1 - e) + t) / 6 = (ne - 1 - e) + t / 6)%nat).
+    { replace (6 * (ne - 1 - e) + t)%nat with (t + (ne - 1 - e) * 6)%nat by lia. rewrite Nat.div_add by lia. lia. }
+    assert (Hm : ((6 * (ne - 1 - e) + t) mod 6 = t mod 6)%nat).
+    { replace (6 * (ne - 1 - e) + t)%nat with (t + (ne - 1 - e) * 6)%nat by lia. apply Nat.mod_add; lia. }
+    rewrite Hd, Hm, sg_mod6.
+    assert (Hi : (6 * (ne - (ne - 1 - e + t / 6)) + t mod 6 = 6 * e + sw t)%nat).
+    { unfold sw. destruct (Nat.ltb_spec t 6) as [H6|H6].
+      - rewrite Nat.div_small, Nat.mod_small by lia. lia.
+      - assert (t / 6 = 1)%nat by (symmetry; apply Nat.div_unique with (t - 6)%nat; lia).
+        assert (t mod 6 = t - 6)%nat by (symmetry; apply Nat.mod_unique with 1%nat; lia). lia. }
+    rewrite Hi. set (K := k e (sw p) (sw t)). set (U := u (6 * e + sw t)%nat).
+    replace (sg p * sg t * K * (sg t * U)) with (sg p * (sg t * sg t) * (K * U)) by ring. rewrite sg_sq. ring.
+  Qed.
+
+  (* system level: every row of the mirrored beam's assembled matrix, applied to the mirrored displacements, is the
+     reflected row of the original beam applied to the original displacements: forces and moments are reflected *)
+  Theorem assembled_mirror a r : (a <= ne)%nat -> (r < 6)%nat ->
+    rsum (6 * S ne) (fun q => assembled ne k' (ne - a) r (q / 6) (q mod 6) * um q)
+    = sg r * rsum (6 * S ne) (fun q => assembled ne k a r (q / 6) (q mod 6) * u q).
+  Proof.
+    intros Ha Hr. rewrite !assembled_row by lia.
+    assert (E1 : (a < ne)%nat -> end_force k' um (ne - a - 1) (6 + r) = sg r * end_force k u a r).
+    { intros H. replace (ne - a - 1)%nat with (ne - 1 - a)%nat by lia. rewrite end_force_mirror by lia.
+      unfold sw. replace (6 + r <? 6)%nat with false by (symmetry; apply Nat.ltb_ge; lia).
+      rewrite sg_add6. replace (6 + r - 6)%nat with r by lia. reflexivity. }
+    assert (E2 : (0 < a)%nat -> end_force k' um (ne - a) r = sg r * end_force k u (a - 1) (6 + r)).
+    { intros H. replace (ne - a)%nat with (ne - 1 - (a - 1))%nat by lia. rewrite end_force_mirror by lia.
+      unfold sw. replace (r <? 6)%nat with true by (symmetry; apply Nat.ltb_lt; lia).
+      replace (r + 6)%nat with (6 + r)%nat by lia. reflexivity. }
+    destruct (Nat.ltb_spec 0 (ne - a)) as [H1|H1]; destruct (Nat.ltb_spec (ne - a) ne) as [H2|H2];
+      destruct (Nat.ltb_spec 0 a) as [H3|H3]; destruct (Nat.ltb_spec a ne) as [H4|H4]; try lia;
+      rewrite ?E1, ?E2 by lia; ring.
+  Qed.
+End MirrorFEM.
